@@ -354,6 +354,25 @@ def owner_closure(P, names):
     return owners
 
 
+def with_helpers(P, f):
+    """f followed by the static functions that only f (or another member of the result) calls: what an "extract function"
+    refactoring of f produces.  Rules that look for an anchor statement in f look in these too."""
+    out = [f]
+    names = {f.name}
+    changed = True
+    while changed:
+        changed = False
+        for g in P.all_functions():
+            if g.name in names or not g.static:
+                continue
+            cs = [c.fn.name for c in P.callers(g.name)]
+            if cs and all(c in names for c in cs):
+                out.append(g)
+                names.add(g.name)
+                changed = True
+    return out
+
+
 def calls_via(P, f, target, cg=None):
     """Call sites in f that are calls of `target` or of a static function from which `target` is reachable."""
     cg = cg or call_graph(P)
